@@ -75,6 +75,7 @@ def replay_history(case) -> List[Tuple[str, str]]:
         sA = Session(os.path.join(work, "a"), base_cfg=extra, text=text, exc=exc, episodes=eps())
         sB = Session(os.path.join(work, "b"), base_cfg=extra, text=text, exc=exc, episodes=eps())          # identical twin: id/ts purity
         sOff = Session(os.path.join(work, "off"), base_cfg=extra, text=text, exc=exc, episodes=eps())      # same history, reflection off
+        sFresh = Session(os.path.join(work, "fresh"), base_cfg=extra, text=text, exc=exc, episodes=eps())  # same history, a fresh context object every turn
         sA.bool_spelling = sB.bool_spelling = case.get("spell", 0)     # t3.allow_reflection written the way YAML/env overrides deliver it
         t_ok, t_to = TIMING[case.get("tv", 0)]
         prev_ver, prev_ids = 0, set()
@@ -86,6 +87,7 @@ def replay_history(case) -> List[Tuple[str, str]]:
             oA = sA.run(inp)
             oB = sB.run(inp)
             oOff = sOff.run(dict(inp, allow_refl=False, refl_out="ok", faults=[f for f in inp.get("faults", []) if not f.startswith("refl_")]))
+            oFresh = sFresh.run(dict(inp, reuse=False))
             where = f"turn {ti + 1} inp={ {k: v for k, v in inp.items() if v not in (False, 'none', [], 'ok')} }"
             if oA["raised"]:
                 fails.append(("TurnArtefactsUntouched", f"{where}: run_turn raised {oA['raised']}"))
@@ -117,6 +119,10 @@ def replay_history(case) -> List[Tuple[str, str]]:
             idsB = [(e.get("id"), e.get("ts"), e.get("text")) for e in oB["refl_new"]]
             if idsA != idsB:
                 fails.append(("IdAndTsPure", f"{where}: two identical runs produced {idsA} vs {idsB}"))
+            idsF = [(e.get("id"), e.get("ts"), e.get("text")) for e in oFresh["refl_new"]]
+            if idsA and idsF and idsA != idsF:
+                fails.append(("IdAndTsPure", f"{where}: the same turn on a reused context object wrote {idsA}, on a fresh context object {idsF} "
+                                             f"(same agent, turn, slot and text)"))
             for i_, _, _ in idsA:
                 if i_ in prev_ids:
                     fails.append(("IdAndTsPure", f"{where}: entry id {i_} repeats an id of an earlier turn"))
